@@ -130,6 +130,13 @@ class Check:
                           "policy": "nic", "seed": sd, "episodes": 2, "steps": 60 if q else 120})
         specs.append({"name": "shipped-uc2-nic", "src": ["shipped", "data_manipulation.yaml"], "policy": "nic", "seed": seed * 100 + 9, "episodes": 2,
                       "steps": 80 if q else 300, "max_len": 80 if q else None})
+        for s in range(16 if q else 64):  # overlapping timed scans / restores on one host, health visible only through scans
+            sd = seed * 1000 + 700 + s
+            specs.append({"name": f"gen-scans-{sd}", "src": ["gen", {"seed": sd, "knobs": {"requires_scan": True, "defender_position": "last"}}], "policy": "scans",
+                          "seed": sd, "episodes": 2, "steps": 80 if q else 160})
+        for i, pol in enumerate(["collide", "nic", "scans", "scans", "disrupt", "scans"] if q else ["collide", "nic", "scans", "disrupt", "scans", "scans"] * 4):
+            specs.append({"name": f"uc2-fullmap-{pol}-{i}", "src": ["fullmap", {"file": "data_manipulation.yaml", "seed": seed * 10 + i}], "policy": pol,
+                          "seed": seed * 100 + 20 + i, "episodes": 2, "steps": 100 if q else 128, "max_len": 100 if q else None})
         return specs
 
     def run_case(self, spec):
